@@ -1068,9 +1068,15 @@ func runningGetters(p *Prog, ro *Roles) map[string]bool {
 		rv := returnedValues(f, 0)
 		ok := len(rv) > 0
 		for _, x := range rv {
-			if !strings.HasSuffix(strip(ro.T.T(x.Val)), "."+svcF.Running) {
-				ok = false
+			t := strip(ro.T.T(x.Val))
+			if strings.HasSuffix(t, "."+svcF.Running) {
+				continue
 			}
+			// the lifecycle kept as an enumeration: the getter answers `state == <serving>`
+			if svcF.RunningVal != "" && strings.HasPrefix(t, "(") && (strings.HasSuffix(t, "."+svcF.Running+" == "+svcF.RunningVal+")") || strings.HasPrefix(t, "("+svcF.RunningVal+" == ") && strings.HasSuffix(t, "."+svcF.Running+")")) {
+				continue
+			}
+			ok = false
 		}
 		if ok {
 			out["call:"+funcFullName(f)+"("] = true
